@@ -3,8 +3,8 @@ import itertools
 from .common import zlit, zlist, ints
 
 PROP_FILE = "Properties/C19.v"
-GEN = ["GenSubset"]
-RUN_FILES = ["Model/C19_run.v"]
+GEN = ["GenSubset", "GenC19"]
+RUN_FILES = ["Model/C19_run.v", "Model/C19_imp_run.v"]
 
 
 def pairs(l):
@@ -111,8 +111,12 @@ def run(ctx):
     texts = []
     hdr = "From Coq Require Import ZArith List.\nFrom PR Require Import Base.ListX Base.Slice Model.Partition Model.C19_run Gen.GenSubset.\nImport ListNotations.\nOpen Scope Z_scope.\n"
 
+    # the same cases are also run through the definitions regenerated from /repo by tools/py2coq_imp.py (Gen/GenC19.v)
+    ihdr = "From Coq Require Import ZArith List.\nFrom PR Require Import Base.ListX Base.Slice Model.C19_run Model.C19_imp_run.\nImport ListNotations.\nOpen Scope Z_scope.\n"
+
     # ---- independent property oracle on the implementation's observations + Coq case text
     L = []
+    LI = []
     for (seg, size, nd), o in zip(cases["get_slice"], obs["get_slice"]):
         ctx.case(("gs", seg, size, nd), nontrivial=isinstance(o, list) and len(o) >= 2,
                  sample={"get_slice": [seg, size], "impl": o})
@@ -122,7 +126,9 @@ def run(ctx):
                             {"oracle": "get_slice", "args": [seg, size, nd], "impl": o})
             continue
         L.append("(%d, %d, %s)" % (seg, size, pairs(o)))
+        LI.append("(%d, %d, %d, %s)" % (seg, size, nd, pairs(o)))
     texts.append(("c19_get_slice", hdr + "Definition cases := [%s].\nEval vm_compute in (bad chk_get_slice cases).\n" % ";\n".join(L), L, "get_slice"))
+    texts.append(("c19_imp_get_slice", ihdr + "Definition cases := [%s].\nEval vm_compute in (bad chk_imp_get_slice cases).\n" % ";\n".join(LI), LI, "generated:_get_slice"))
 
     L = []
     for chunks, o in zip(cases["chunks"], obs["chunks"]):
@@ -142,6 +148,7 @@ def run(ctx):
         L.append("(%s, %s)" % ("[" + "; ".join(zlist(c) for c in chunks) + "]",
                                "[" + "; ".join("[" + "; ".join("(%d, (%d, %d))" % tuple(e) for e in blk) + "]" for blk in o) + "]"))
     texts.append(("c19_chunks", hdr + "Definition cases : list (list (list Z) * list (list (Z * (Z * Z)))) := [%s].\nEval vm_compute in (bad chk_chunks cases).\n" % ";\n".join(L), L, "chunks"))
+    texts.append(("c19_imp_chunks", ihdr + "Definition cases : list (list (list Z) * list (list (Z * (Z * Z)))) := [%s].\nEval vm_compute in (bad chk_imp_chunks cases).\n" % ";\n".join(L), L, "generated:_enumerate_chunk_slices"))
 
     L = []
     for (cap, appends, width, reads), o in zip(cases["raa"], obs["raa"]):
@@ -163,6 +170,7 @@ def run(ctx):
         L.append("(%d, %s, %s)" % (cap, "[" + "; ".join(zlist(a) for a in appends) + "]",
                                    "[" + "; ".join("(%d, %s)" % (rd["k"], zlist(rd["rows"])) for rd in o["reads"]) + "]"))
     texts.append(("c19_raa", hdr + "Definition cases : list (Z * list (list Z) * list (Z * list Z)) := [%s].\nEval vm_compute in (bad chk_raa cases).\n" % ";\n".join(L), L, "raa"))
+    texts.append(("c19_imp_raa", ihdr + "Definition cases : list (Z * list (list Z) * list (Z * list Z)) := [%s].\nEval vm_compute in (bad chk_imp_raa cases).\n" % ";\n".join(L), L, "generated:RowAppendableArray"))
 
     L = []
     for (a, b, mx, f), o in zip(cases["divisible"], obs["divisible"]):
@@ -209,6 +217,7 @@ def run(ctx):
         L.append("(%s, %s)" % ("[" + "; ".join(zlist(s) for s in fam) + "]",
                                "[" + "; ".join("(%s, %s)" % (zlist(ids), zlist(p)) for ids, p in o) + "]"))
     texts.append(("c19_unions", hdr + "Definition cases : list (list zset * list (list Z * zset)) := [%s].\nEval vm_compute in (bad chk_unions cases).\n" % ";\n".join(L), L, "merge"))
+    texts.append(("c19_imp_unions", ihdr + "Definition cases : list (list zset * list (list Z * zset)) := [%s].\nEval vm_compute in (bad chk_imp_unions cases).\n" % ";\n".join(L), L, "generated:_merge_unions"))
 
     res = ctx.coq_eval_many([(n, t) for n, t, _, _ in texts])
     for name, _, lines, what in texts:
